@@ -195,15 +195,24 @@ def run_property(modname, tier, seed=0):
     prop = mod.PROP
     t0 = time.time()
     E.build()
-    nshards = NPROC * getattr(mod, "SHARDS_PER_PROC", 2)
-    order = list(range(nshards))
-    if seed:
-        r = seed % nshards
-        order = order[r:] + order[:r]
-    args = [(modname, tier, s, nshards, seed) for s in order]
-    ctx = mp.get_context("fork")
-    with ctx.Pool(NPROC) as pool:
-        parts = pool.map(_shard_worker, args, chunksize=1)
+    if getattr(mod, "SEARCH", False):
+        from . import search
+        parts = search.collect(modname, mod, tier, seed)
+        if hasattr(mod, "cases") and not (parts and "machinery" in parts[0]):
+            nshards = NPROC * 2
+            args = [(modname, tier, s, nshards, seed) for s in range(nshards)]
+            with mp.get_context("fork").Pool(NPROC) as pool:
+                parts += pool.map(_shard_worker, args, chunksize=1)
+    else:
+        nshards = NPROC * getattr(mod, "SHARDS_PER_PROC", 2)
+        order = list(range(nshards))
+        if seed:
+            r = seed % nshards
+            order = order[r:] + order[:r]
+        args = [(modname, tier, s, nshards, seed) for s in order]
+        ctx = mp.get_context("fork")
+        with ctx.Pool(NPROC) as pool:
+            parts = pool.map(_shard_worker, args, chunksize=1)
     for p in parts:
         if "machinery" in p:
             print("MACHINERY ERROR in %s: %s" % (prop, p["machinery"]))
@@ -280,8 +289,9 @@ def run_property(modname, tier, seed=0):
     }
     if getattr(mod, "LEVEL", "exploration") == "model_checking":
         cov["states"] = int(extra.get("states", total["cases"]))
-        cov["transitions"] = int(extra.get("transitions", total["evals"]))
-        cov["traces_validated_against_impl"] = int(extra.get("transitions", total["evals"]))
+        cov["transitions"] = int(extra.get("transitions", total["cases"]))
+        cov["traces_validated_against_impl"] = int(extra.get("transitions", total["cases"]))
+        cov["explanation"] = getattr(mod, "SEARCH_NOTE", "")
     if getattr(mod, "LEVEL", "") == "translation_validation":
         cov["programs"] = total["cases"]
         cov["disagreements_checked"] = int(extra.get("violations_total", 0))
